@@ -86,6 +86,10 @@ def corpus_games():
     out.append((dict(rewards=[0, 5000, 1, 0, 0, 0, 0, 1000, 0, 0, 2, 1, 1, 0, 0], players=kinds, transition_list=rows, final_states=[FIN]),
                 dict(fr=[[Fr(w).limit_denominator(100) for w, _ in row] if kd == PR else None for kd, row in zip(kinds, rows)],
                      style="corpus", guard="any")))
+    # ... and one needing a few hundred thousand sweeps (self-loop left with probability 5e-5), three states only
+    out.append((dict(rewards=[1, 0, 0], players=[PR, PR, PR],
+                     transition_list=[[(0.99995, 0), (0.00004, 1), (0.00001, 2)], [(1, 1)], [(1, 2)]], final_states=[1]),
+                dict(fr=[[Fr(99995, 100000), Fr(4, 100000), Fr(1, 100000)], [Fr(1)], [Fr(1)]], style="corpus", guard="any", patient=True)))
     # a live successor entered with a minute probability next to a dead one (the surviving mass is far below any
     # 'is it zero?' tolerance, but it is not zero: the branch stays and is rescaled to 1), and dead successors entered
     # with probability exactly 0.0 (nothing to rescale, but they must go all the same)
